@@ -53,6 +53,7 @@ CONFIGS = {
     "intvalues": ("|", "name", "int", False),
     # user node classes with their own truth value / value semantics are nodes like any other
     "falsyvalues": ("/", "name", "falsy", False),   # path attribute values 0, False, 0.0, () - "as a string"
+    "norepr": ("/", "name", None, False),   # repr() of the nodes raises: relax=True must still never raise
     "falsy": ("/", "name", None, False),
     "eqhash": ("/", "name", None, False),
 }
@@ -66,6 +67,10 @@ def node_class(sep, variant="plain"):
         d = {"separator": sep}
         if variant == "falsy":
             d["__len__"] = lambda self: 0
+        elif variant == "norepr":
+            def _norepr(self):
+                raise RuntimeError("repr() of this node is not available")
+            d["__repr__"] = _norepr
         elif variant == "eqhash":
             d["__eq__"] = lambda self, other: True
             d["__ne__"] = lambda self, other: False
@@ -76,7 +81,7 @@ def node_class(sep, variant="plain"):
 
 def build(m, names, cfg):
     sep, attr, transform, missing = CONFIGS[cfg]
-    cls = node_class(sep, cfg if cfg in ("falsy", "eqhash") else "plain")
+    cls = node_class(sep, cfg if cfg in ("falsy", "eqhash", "norepr") else "plain")
     nodes = []
     strnames = []
     for i in range(m.n):
@@ -127,6 +132,8 @@ def check_tree(t, shape, names, cfg, maxcomp, only=None):
                 for rx in (False, True):
                     if only and (start, path, ic, rx) != only:
                         continue
+                    if cfg == "norepr" and not rx and exp[0] == "error":
+                        continue  # the strict error message legitimately contains the repr of the node
                     t.c["evaluations"] += 1
                     try:
                         r = resolvers[(ic, rx)].get(nodes[start], path)
@@ -149,6 +156,8 @@ def check_tree(t, shape, names, cfg, maxcomp, only=None):
         t.obs((shape, names, cfg, start, t.c["evaluations"]))
     if only:
         return
+    if cfg in ("default", "norepr") and m.n >= 2 and False:
+        pass
     if cfg == "default" and m.n >= 2:
         rename_histories(t, m, nodes, list(strnames), sep, attr, idm, ctx)
     # round-trip theorems on sibling-unique ordinary names
@@ -256,7 +265,7 @@ def plan(tier):
         spec = [(1, 3, NAMES_FULL, "default", 3), (4, 4, NAMES_SMALL, "default", 2),
                 (1, 3, NAMES_SMALL, "semicolon", 2), (1, 3, NAMES_SMALL, "doublecolon", 2), (1, 3, NAMES_SMALL, "customattr", 2),
                 (1, 3, NAMES_SMALL, "missingattr", 2), (1, 3, NAMES_SMALL, "intvalues", 2),
-                (1, 3, NAMES_SMALL, "falsy", 2), (1, 3, NAMES_SMALL, "eqhash", 2), (1, 3, NAMES_SMALL, "falsyvalues", 2),
+                (1, 3, NAMES_SMALL, "falsy", 2), (1, 3, NAMES_SMALL, "eqhash", 2), (1, 3, NAMES_SMALL, "falsyvalues", 2), (1, 3, NAMES_SMALL, "norepr", 2),
                 (2, 3, ("a", "a;b", "b"), "semicolon", 3), (5, 5, ("a", "b"), "doublecolon", 2)]
     else:
         spec = [(1, 4, NAMES_FULL, "default", 3), (5, 5, NAMES_SMALL, "default", 2)] + \
